@@ -66,6 +66,38 @@ def rule_lookups(ctx, P, r):
                 if okret:
                     r.ok(inst, func=f.name, loc=ins.loc, facts={'deref_sites': nsites})
 
+def _below_nonnull_prefix(P, fn, idx, block):
+    """idx < n holds at `block`, where n is the exit value of a scan `n = 0; while (ec_backends_supported[n] != NULL) n++`:
+    every entry below n was seen non-NULL by that scan"""
+    from ..cfg import dominators, dominates
+    from ..nullcheck import nonnull_edges
+    F = Facts(P, fn, block)
+    idom = None
+    for bound, strict, _ in F.upper_bound_sym(F.norm(idx)):
+        if not strict:
+            continue
+        for d in fn.insts():
+            if d.op != 'phi' or not d.ty.startswith('i') or F.norm(d.res) != bound or len(d.incoming) != 2:
+                continue
+            init = [v for v, _ in d.incoming if INT.match(v)]
+            step = [(v, lab) for v, lab in d.incoming if not INT.match(v)]
+            if init != ['0'] or len(step) != 1:
+                continue
+            sd = fn.defs.get(step[0][0])
+            if sd is None or sd.op != 'add' or sorted(strip_int_casts(fn, o) for o in sd.ops) != sorted(['1', d.res]):
+                continue
+            # the latch is entered only over an edge on which table[n] is known non-NULL
+            entries = [l for l in fn.insts() if l.op == 'load' and (fn.defs.get(l.ops[0]) is not None) and fn.defs[l.ops[0]].op == 'getelementptr'
+                       and fn.defs[l.ops[0]].ops[0] == '@ec_backends_supported' and strip_int_casts(fn, fn.defs[l.ops[0]].ops[-1]) == d.res]
+            idom = idom or dominators(fn)
+            latch = fn.blocks[step[0][1]]
+            for l in entries:
+                A, _ = derived_pointers(fn, [l.res])
+                for (sb, db) in nonnull_edges(fn, A):
+                    if len(db.preds) == 1 and (db is latch or dominates(idom, db, latch)):
+                        return True
+    return False
+
 def run(ctx):
     P = ctx.program()
     cg = callgraph.get(P)
@@ -173,6 +205,9 @@ def run(ctx):
                 r.ok(inst + (': entry tested for NULL before use' if nsites else ': entry not dereferenced here'), func=fn.name, loc=ld.loc)
                 continue
             ubs = [_ub13(P, fn, idx, ld.bb)]        # what is known about the index where the entry is fetched
+            if ubs[0] is None and _below_nonnull_prefix(P, fn, idx, ld.bb):
+                r.ok(inst + ': index below the length of the non-NULL prefix counted by a scan of the same table', func=fn.name, loc=ld.loc)
+                continue
             if all(u is not None and u <= bmax - 1 for u in ubs):
                 r.ok(inst + f': index <= {bmax - 1} where the entry is dereferenced', func=fn.name, loc=ld.loc)
             else:
